@@ -4,6 +4,7 @@ import (
 	"fmt"
 	"go/ast"
 	"go/types"
+	"os"
 	"regexp"
 	"sort"
 	"strings"
@@ -336,6 +337,18 @@ func verifyFunc(p *Prog, db *ContractDB, fc *FuncContract, prop string) (u *Unit
 			goal := x.evalBool(eenv, e.Expr)
 			o := x.addObl(exit, "ensures", fmt.Sprintf("%s/ensures:%s", shortFn(fn), e.Label), goal, e.Pos, e.Text)
 			_ = o
+		}
+	}
+	// a call hook that matched no call of the function is a hole in the contract (its ghost keeps
+	// the entry value and clauses guarded by it hold vacuously): say so loudly
+	for name := range fc.OnCall {
+		if strings.HasPrefix(name, "mapupdate:") {
+			continue
+		}
+		if !x.hookFired[fc.Key+"|"+name] {
+			msg := fmt.Sprintf("WARNING: on-call hook %q of %s matched no call in the function", name, shortKey(fc.Key))
+			x.vc.note(msg)
+			fmt.Fprintln(os.Stderr, msg)
 		}
 	}
 	v := x.addObl(exit, "vacuity", fmt.Sprintf("%s/vacuity:returns", shortFn(fn)), "true", fc.File, "some return is reachable under the precondition")
